@@ -7,7 +7,8 @@ import VaxisModel.Model.EmuDcs
 `ev=N <snapshot>` (see Model/EmuIO.lean). Output `model-canon<TAB>impl-canon<TAB>verdict`:
 the canons are `=` when model and implementation agree on every snapshot token, otherwise the
 differing tokens; the verdict is the state clause of C05 (`EmuIO.invViolation`) evaluated on the
-implementation's snapshot, `FAIL panic` / `FAIL hang` when the implementation panicked / hung. -/
+implementation's snapshot, `FAIL panic` / `FAIL hang` when the implementation panicked / hung,
+`FAIL resize changed the pen` when the pen after a `resize` differs from the pen before it (F112c). -/
 namespace VaxisModel.Driver.C05
 open VaxisModel.Driver VaxisModel.Model.Emu VaxisModel.Model.EmuIO
 
@@ -133,8 +134,13 @@ def step (st : St) (line : String) : St × String :=
             let dimsOk := s.dimR = s.e.height ∧ s.dimC = s.e.width ∧ s.dimPR = s.e.primary.length ∧ s.dimAR = s.e.alt.length
             let istr := if dimsOk ∧ istr = impl then istr else "reparse:" ++ istr
             let (a, b) := diffTokens mstr istr
+            -- F112c: a resize must leave the pen alone (judged on the implementation's own snapshots:
+            -- the state before the op is the implementation's previous snapshot)
+            let penChanged : Bool := match cmd, st.model with
+              | .op (.resize _ _), some e => decide (s.e.cur.st ≠ e.cur.st)
+              | _, _ => false
             let verdict := match invViolation s with
-              | none => "ok"
+              | none => if penChanged then "FAIL resize changed the pen" else "ok"
               | some why => "FAIL inv: " ++ why
             -- continue from the implementation's state (identical to the model's when they agree)
             ({ model := some { s.e with hasVx := false } }, s!"{a}\t{b}\t{verdict}")
